@@ -16,7 +16,7 @@ SCHEMA_NAMES = ["Pet", "Owner", "Order", "Tag", "Event", "Address", "Invoice", "
 PREFIX_NAMES = ["User", "UserGroup", "OrderItem", "PetItem", "TagProperty"]
 PROP_NAMES = ["id", "name", "createdAt", "count", "is_active", "tags", "owner", "kind", "price", "note", "items",
               "display-name", "X-Code", "class", "type", "userId", "user_id", "meta", "ratio", "birthday", "payload"]
-TAGS = ["Users", "Pets", "Orders", "admin", "Data Sources", "v2"]
+TAGS = ["Users", "Pets", "Orders", "admin", "Data Sources", "v2", "Billing v1", "Billing v2"]
 TAG_VARIANTS = {"Users": ["users", "USERS"], "Data Sources": ["data_sources", "DataSources", "data-sources"]}
 SEGS = ["users", "pets", "orders", "items", "v1", "reports", "user-groups", "things"]
 PVARS = ["id", "user_id", "petId", "order-id", "name"]
@@ -59,6 +59,8 @@ class Opts:
     self_ref: bool = True           # self reference through an array (imports fine, but cannot be decoded: F42)
     defaults: bool = False          # `default` values on enum schemas and primitive properties
     colliding_props: bool = False   # property names that collide after sanitisation (userId, user_id, user_id_2, user-id)
+    prim_unions: bool = False       # oneOf/anyOf of primitive schemas, some collapsing to one python type
+    discriminators: bool = False    # oneOf of object schemas with a discriminator + mapping (inline enum on the discriminator property)
     allof_variants: bool = False    # requirement-only allOf parts, own part before the parent, properties next to allOf
     colliding_names: bool = False   # schema names that collide after class-casing / snake-casing (LineItem, line_item, Line-Item)
     ndjson: bool = False            # application/x-ndjson responses (parsed as SSE by the generated code: F43)
@@ -147,6 +149,9 @@ def gen_property(r: random.Random, o: Opts, names: list[str], me: str, earlier: 
         #                                                through a promoted inline object it is a module cycle, F2)
     elif k < 0.95 and o.unions and len(targets) >= 2:
         s = {r.choice(["oneOf", "anyOf"]): [_ref(t) for t in r.sample(targets, 2)]}
+    elif k < 0.97 and o.prim_unions:
+        s = {r.choice(["oneOf", "anyOf"]): r.sample([{"type": "string"}, {"type": "integer"}, {"type": "string", "format": "email"}, {"type": "boolean"},
+                                                     {"type": "string", "format": "uri"}, {"type": "number"}], r.randint(2, 4))}
     else:
         s = _prim(r, o)
     if o.nullable and "$ref" not in s and "oneOf" not in s and "anyOf" not in s and r.random() < 0.12:
@@ -250,6 +255,12 @@ def gen_schemas(r: random.Random, o: Opts) -> dict:
                     schemas[name] = {"allOf": [_ref(parent), {"required": [next(iter(own))]}], "type": "object", "properties": own}
             continue
         schemas[name] = obj
+    if o.discriminators and r.random() < 0.6:
+        a, b = "Cat", "Dog"
+        if a not in schemas and b not in schemas:
+            schemas[a] = {"type": "object", "required": ["kind"], "properties": {"kind": {"type": "string", "enum": ["cat"]}, "lives": {"type": "integer"}}}
+            schemas[b] = {"type": "object", "required": ["kind"], "properties": {"kind": {"type": "string", "enum": ["dog"]}, "tricks": {"type": "array", "items": {"type": "string"}}}}
+            schemas["Animal"] = {"oneOf": [_ref(a), _ref(b)], "discriminator": {"propertyName": "kind", "mapping": {"cat": "#/components/schemas/Cat", "dog": "#/components/schemas/Dog"}}}
     return schemas
 
 
